@@ -14,7 +14,7 @@ void nni_lmq_init(nni_lmq *lmq, size_t cap)
     /* clang-format off */
 __CPROVER_requires(__CPROVER_is_fresh(lmq, sizeof(nni_lmq)))
 __CPROVER_requires(cap <= LMQ_MAXALLOC)
-__CPROVER_assigns(*lmq, g_msg_freed, g_msg_freed_at_j, g_free_calls)
+__CPROVER_assigns(*lmq, g_msg_freed, g_msg_freed_at_j, g_free_calls, g_alloc_ok)
 __CPROVER_ensures(LMQ_WF_SCALAR(lmq) && LMQ_SHAPE_POST_FRESH(lmq))
 __CPROVER_ensures(lmq->lmq_len == 0)
 /* capacity: what was asked for, or the documented fallback of 2 when the
@@ -89,7 +89,7 @@ int nni_lmq_resize(nni_lmq *lmq, size_t cap)
     /* clang-format off */
 __CPROVER_requires(LMQ_SHAPE_PRE(lmq) && LMQ_WF_SCALAR(lmq))
 __CPROVER_requires(cap <= LMQ_MAXALLOC)
-__CPROVER_assigns(*lmq, g_msg_freed, g_msg_freed_at_j, g_free_calls)
+__CPROVER_assigns(*lmq, g_msg_freed, g_msg_freed_at_j, g_free_calls, g_alloc_ok)
 __CPROVER_frees(lmq->lmq_alloc > 0: lmq->lmq_msgs)
 __CPROVER_ensures(__CPROVER_return_value == 0 || __CPROVER_return_value == NNG_ENOMEM)
 __CPROVER_ensures(LMQ_WF_SCALAR(lmq))
@@ -104,6 +104,9 @@ __CPROVER_ensures((__CPROVER_return_value == 0 && g_k < lmq->lmq_len) ==> LMQ_VI
 /* ... and only what no longer fits is discarded, whole, once each, from the tail end */
 __CPROVER_ensures(__CPROVER_return_value == 0 ==> g_msg_freed == __CPROVER_old(g_msg_freed) + (__CPROVER_old(lmq->lmq_len) - lmq->lmq_len))
 __CPROVER_ensures((__CPROVER_return_value == 0 && g_j >= __CPROVER_old(g_msg_freed) && g_j < g_msg_freed) ==> g_msg_freed_at_j == __CPROVER_old(LMQ_VIEW(lmq, cap + (g_j - g_msg_freed))))
+/* failure allocates nothing; success allocates exactly the new array */
+__CPROVER_ensures(g_alloc_ok == __CPROVER_old(g_alloc_ok) + (__CPROVER_return_value == 0 ? 1 : 0))
+__CPROVER_ensures(__CPROVER_return_value != 0 ==> g_free_calls == __CPROVER_old(g_free_calls))
 /* old heap array released exactly when there was one */
 __CPROVER_ensures(__CPROVER_return_value == 0 ==> (g_free_calls == __CPROVER_old(g_free_calls) + (__CPROVER_old(lmq->lmq_alloc) > 0 ? 1 : 0)))
     /* clang-format on */
